@@ -16,19 +16,30 @@ import (
 
 func init() { drv.Register("C17", monC17) }
 
+// protocol-exception type ids as Thrift defines them (TProtocolException); deliberately not taken from the library
+const (
+	peUnknown      int32 = 0
+	peInvalidData  int32 = 1
+	peNegativeSize int32 = 2
+	peSizeLimit    int32 = 3
+	peBadVersion   int32 = 4
+	peNotImpl      int32 = 5
+	peDepthLimit   int32 = 6
+)
+
 var typeIDNames = map[int32]string{0: "UNKNOWN", 1: "INVALID_DATA", 2: "NEGATIVE_SIZE", 3: "SIZE_LIMIT", 4: "BAD_VERSION", 5: "NOT_IMPLEMENTED", 6: "DEPTH_LIMIT"}
 
 // acceptedIDs maps the oracle's cause set to the exception type ids Thrift defines for them.
 func acceptedIDs(pr *ref.ParseResult) map[int32]bool {
 	acc := map[int32]bool{}
 	if pr.Causes&(ref.CTrunc|ref.CUnknown) != 0 {
-		acc[thrift.INVALID_DATA] = true
+		acc[peInvalidData] = true
 	}
 	if pr.Causes&ref.CNeg != 0 {
-		acc[thrift.NEGATIVE_SIZE] = true
+		acc[peNegativeSize] = true
 	}
 	if pr.Causes&ref.CDepth != 0 || pr.FailNesting >= 64 || pr.MaxNesting >= 64 {
-		acc[thrift.DEPTH_LIMIT] = true
+		acc[peDepthLimit] = true
 	}
 	return acc
 }
@@ -62,12 +73,12 @@ func c17Skip(cs *drv.Case, b []byte, t byte) {
 	}
 	acc := acceptedIDs(&pr)
 	if pr.OK && pr.MaxNesting >= 64 {
-		acc = map[int32]bool{thrift.DEPTH_LIMIT: true}
+		acc = map[int32]bool{peDepthLimit: true}
 	}
 	if pr.DeepOff >= 0 {
 		// a 65th nested container is met (in input order) before anything else is wrong:
 		// the depth limit is the cause, whatever comes later
-		acc = map[int32]bool{thrift.DEPTH_LIMIT: true}
+		acc = map[int32]bool{peDepthLimit: true}
 	}
 	id, ok := typeID(err)
 	class := fmt.Sprint(causeNames(pr.Causes))
@@ -113,30 +124,30 @@ func c17Readers(cs *drv.Case, b []byte) {
 		cs.Fail("error-wrong-type-id", M{"entry": entry, "got": typeIDNames[id]}, M{"input_hex": hexOf(b), "err": errString(err)})
 	}
 	_, _, e := x.ReadBool(in)
-	check("Binary.ReadBool", e, 1, thrift.INVALID_DATA)
+	check("Binary.ReadBool", e, 1, peInvalidData)
 	_, _, e = x.ReadByte(in)
-	check("Binary.ReadByte", e, 1, thrift.INVALID_DATA)
+	check("Binary.ReadByte", e, 1, peInvalidData)
 	_, _, e = x.ReadI16(in)
-	check("Binary.ReadI16", e, 2, thrift.INVALID_DATA)
+	check("Binary.ReadI16", e, 2, peInvalidData)
 	_, _, e = x.ReadI32(in)
-	check("Binary.ReadI32", e, 4, thrift.INVALID_DATA)
+	check("Binary.ReadI32", e, 4, peInvalidData)
 	_, _, e = x.ReadI64(in)
-	check("Binary.ReadI64", e, 8, thrift.INVALID_DATA)
+	check("Binary.ReadI64", e, 8, peInvalidData)
 	_, _, e = x.ReadDouble(in)
-	check("Binary.ReadDouble", e, 8, thrift.INVALID_DATA)
+	check("Binary.ReadDouble", e, 8, peInvalidData)
 	_, _, _, e = x.ReadFieldBegin(in)
-	check("Binary.ReadFieldBegin", e, 1, thrift.INVALID_DATA)
+	check("Binary.ReadFieldBegin", e, 1, peInvalidData)
 	_, _, _, _, e = x.ReadMapBegin(in)
-	check("Binary.ReadMapBegin", e, 6, thrift.INVALID_DATA)
+	check("Binary.ReadMapBegin", e, 6, peInvalidData)
 	_, _, _, e = x.ReadListBegin(in)
-	check("Binary.ReadListBegin", e, 5, thrift.INVALID_DATA)
+	check("Binary.ReadListBegin", e, 5, peInvalidData)
 	_, _, _, e = x.ReadSetBegin(in)
-	check("Binary.ReadSetBegin", e, 5, thrift.INVALID_DATA)
+	check("Binary.ReadSetBegin", e, 5, peInvalidData)
 	// string / binary: negative declared size -> NEGATIVE_SIZE, otherwise truncation -> INVALID_DATA
 	neg := len(b) >= 4 && b[0]&0x80 != 0
-	want := int32(thrift.INVALID_DATA)
+	want := int32(peInvalidData)
 	if neg {
-		want = thrift.NEGATIVE_SIZE
+		want = peNegativeSize
 	}
 	_, _, e = x.ReadString(in)
 	check("Binary.ReadString", e, 4, want)
@@ -159,14 +170,14 @@ func c17Message(cs *drv.Case, b []byte) {
 	acc := map[int32]bool{}
 	switch {
 	case len(b) < 4:
-		acc[thrift.INVALID_DATA] = true
+		acc[peInvalidData] = true
 	case uint32(b[0])<<8|uint32(b[1]) != 0x8001:
-		acc[thrift.BAD_VERSION] = true
+		acc[peBadVersion] = true
 	default:
-		acc[thrift.INVALID_DATA] = true
+		acc[peInvalidData] = true
 		if len(b) >= 8 && b[4]&0x80 != 0 {
 			// negative method-name length: the cause is "negative size" (the buffer is not too small)
-			acc = map[int32]bool{thrift.NEGATIVE_SIZE: true}
+			acc = map[int32]bool{peNegativeSize: true}
 		}
 	}
 	if !acc[id] {
@@ -181,7 +192,7 @@ func (e sliceErr) Error() string { return "aggregate: " + fmt.Sprint([]string(e)
 
 var c17Errs = []error{io.EOF, io.ErrUnexpectedEOF, doubles.ErrCustom, errors.New("connection reset by peer"),
 	doubles.ErrTimeout,
-	fmt.Errorf("framed transport: %w", thrift.NewProtocolException(thrift.INVALID_DATA, "inner protocol error")), // wraps a protocol exception
+	fmt.Errorf("framed transport: %w", thrift.NewProtocolException(peInvalidData, "inner protocol error")), // wraps a protocol exception
 	fmt.Errorf("tls: %w", io.EOF),
 	sliceErr{"a", "b"}, // non-comparable dynamic type
 	thrift.NewTransportException(3, "transport closed"),
@@ -334,6 +345,19 @@ func monC17(c *drv.Ctx) {
 		}
 	})
 	// (3) negative sizes in every size position, fixed and variable element types
+	// the exported type-id constants are the numbers Thrift assigns (TProtocolException)
+	c.Stage("wire-constants", 1, true, func(cs *drv.Case) {
+		got := map[string]int32{"UNKNOWN_PROTOCOL_EXCEPTION": thrift.UNKNOWN_PROTOCOL_EXCEPTION, "INVALID_DATA": thrift.INVALID_DATA, "NEGATIVE_SIZE": thrift.NEGATIVE_SIZE,
+			"SIZE_LIMIT": thrift.SIZE_LIMIT, "BAD_VERSION": thrift.BAD_VERSION, "NOT_IMPLEMENTED": thrift.NOT_IMPLEMENTED, "DEPTH_LIMIT": thrift.DEPTH_LIMIT}
+		want := map[string]int32{"UNKNOWN_PROTOCOL_EXCEPTION": peUnknown, "INVALID_DATA": peInvalidData, "NEGATIVE_SIZE": peNegativeSize,
+			"SIZE_LIMIT": peSizeLimit, "BAD_VERSION": peBadVersion, "NOT_IMPLEMENTED": peNotImpl, "DEPTH_LIMIT": peDepthLimit}
+		for k, w := range want {
+			if got[k] != w {
+				cs.Fail("type-id-constant", M{"name": k}, M{"got": got[k], "thrift_defines": w})
+			}
+		}
+		cs.Count(true, "constants")
+	})
 	c.Stage("negative-sizes", 11*11*4, true, func(cs *drv.Case) {
 		i := cs.Idx
 		kt := ref.KnownTypes[i%11]
